@@ -210,6 +210,23 @@ func c10Judge(e c10Expect, reply string) (class string, got string) {
 
 var c10DefaultDiag = regexp.MustCompile(`struct literal|untyped (float|int|string|bool) constant|undefined: unknown|array or slice literal|in argument to \(func|map\[string\]interface`)
 
+var c10LineNo = regexp.MustCompile(`line (\d+)`)
+
+// c10PyLine: the source line a Python import error points at
+func c10PyLine(c *LabCase) string {
+	m := c10LineNo.FindStringSubmatch(c.PyImportErr)
+	if m == nil {
+		return "-"
+	}
+	n := 0
+	fmt.Sscanf(m[1], "%d", &n)
+	lines := strings.Split(string(c.Files["python/models/"+c.ID+".py"]), "\n")
+	if n < 1 || n > len(lines) {
+		return "-"
+	}
+	return strings.TrimSpace(lines[n-1])
+}
+
 type c10Term struct {
 	ID      string // pinned id ("" for generated terms)
 	Src     string
@@ -236,6 +253,7 @@ var c10Pinned = []c10Term{
 	{ID: "struct-ref-named-enum-member", Degrade: 1, Src: `(defs "Root" ("Root" (struct (field "se" (ref "S") false false (o ("e" (s "b")))))) ("S" (struct (field "e" (ref "E") true false -) (field "p" (bool) false false -))) ("E" (enumS "a" "b")))`},
 	{ID: "struct-ref-union-member", Degrade: 1, Src: `(defs "Root" ("Root" (struct (field "su" (ref "S") false false (o ("u" (s "x")))))) ("S" (struct (field "u" (oneOfScalars (string - - false) (int 64 true - -)) true false -) (field "p" (bool) false false -))))`},
 	{ID: "struct-inline", Degrade: 1, Src: `(defs "Root" ("Root" (struct (field "a" (struct (field "p" (string - - false) false false -) (field "q" (int 64 true - -) false false -)) false false (o ("p" (s "x")))))))`},
+	{ID: "struct-inline-required", Degrade: 1, Formats: []string{"cue"}, Src: `(defs "Root" ("Root" (struct (field "y1" (struct (field "tags" (int 64 true - -) false false -) (field "b" (int 64 true - -) true false -)) true false (o ("tags" (n "8")))) (field "when" (const false) false false -))))`},
 	{ID: "struct-nullable-ref", Degrade: 1, Src: `(defs "Root" ("Root" (struct (field "a" (ref "S") false true (o ("p" (s "x")))))) ("S" (struct (field "p" (string - - false) false false -))))`},
 	{ID: "union", Degrade: 1, Src: `(defs "Root" ("Root" (struct (field "u" (oneOfScalars (string - - false) (int 64 true - -) (array (bool))) false false (s "4")) (field "v" (oneOfScalars (string - - false) (int 64 true - -)) true false (n "7")))))`},
 	{ID: "int-beyond-2^53", Degrade: 1, Src: `(defs "Root" ("Root" (struct (field "big" (int 64 true - -) false false (n "9007199254740993")))))`},
@@ -374,20 +392,19 @@ func c10Stream(args map[string]string, out *bufio.Writer) error {
 		fmt.Fprintf(out, "-\tcase %s %s format=%s degraded=%v notes=%v expectations=%d src=%s\tok\n", c.ID, tag, c.Format, c.Degraded, c.Notes, len(exp), c.Defs.sexp())
 		fmt.Fprintf(out, "defschemas %s.go %s\tok\tok\n", c.ID, virSchemas(c.IRGo))
 		fmt.Fprintf(out, "defschemas %s.py %s\tok\tok\n", c.ID, virSchemas(c.IRPy))
-		first := func(format string) string {
-			if len(exp) == 0 {
-				return ""
-			}
-			return fmt.Sprintf(" kind=%s path=%s.%s expected=%s", exp[0].Kind, exp[0].Object, exp[0].Path, exp[0].Want.json())
+		kindSet := map[string]int{}
+		for _, x := range exp {
+			kindSet[x.Kind]++
 		}
+		kinds := strings.Join(labSortedKeys(kindSet), ",")
 		// package level: does it compile / import?
 		goImpl, goVerdict := "ok", "ok"
 		if !c.GoOK {
 			goImpl = "cerr"
-			if !c10DefaultDiag.MatchString(c.GoCompileErr) {
+			if !c10DefaultDiag.MatchString(labFirstLine(c.GoCompileErr)) {
 				goImpl = "cerr-other"
 			}
-			goVerdict = fmt.Sprintf("FAIL lang=go class=compile format=%s pinned=%s%s got=%s", c.Format, tag, first(c.Format), c10Short(labOneLine(c.GoCompileErr)))
+			goVerdict = fmt.Sprintf("FAIL lang=go class=compile format=%s pinned=%s kinds=%s got=%s", c.Format, tag, kinds, c10Short(labOneLine(c.GoCompileErr)))
 			stats["go.notcompiled"]++
 		}
 		fmt.Fprintf(out, "godefaults %s.go %s *\t%s\t%s\n", c.ID, c.ID, goImpl, goVerdict)
@@ -397,7 +414,7 @@ func c10Stream(args map[string]string, out *bufio.Writer) error {
 			if !strings.Contains(c.PyImportErr, "SyntaxError") {
 				pyImpl = "importerr-other"
 			}
-			pyVerdict = fmt.Sprintf("FAIL lang=py class=import format=%s pinned=%s%s got=%s", c.Format, tag, first(c.Format), c10Short(labOneLine(c.PyImportErr)))
+			pyVerdict = fmt.Sprintf("FAIL lang=py class=import format=%s pinned=%s kinds=%s got=%s line=%s", c.Format, tag, kinds, c10Short(labOneLine(c.PyImportErr)), c10Short(c10PyLine(c)))
 			stats["py.notimported"]++
 		}
 		fmt.Fprintf(out, "pydefaults %s.py %s *\t%s\t%s\n", c.ID, c.ID, pyImpl, pyVerdict)
@@ -426,19 +443,28 @@ func c10Stream(args map[string]string, out *bufio.Writer) error {
 			goReq := fmt.Sprintf("godefaults %s.go %s %s", c.ID, c.ID, n)
 			pyReq := fmt.Sprintf("pydefaults %s.py %s %s", c.ID, c.ID, n)
 			var goFails, pyFails []string
+			okind := map[string]int{}
+			for _, x := range byObj[n] {
+				okind[x.Kind]++
+			}
+			okinds := strings.Join(labSortedKeys(okind), ",")
+			if len(byObj[n]) > 0 && c.GoOK && hasGo && !strings.HasPrefix(g, "ok ") {
+				goFails = append(goFails, fmt.Sprintf("FAIL lang=go class=error format=%s pinned=%s kinds=%s path=%s got=%s", c.Format, tag, okinds, n, c10Short(labOneLine(g))))
+			}
+			if len(byObj[n]) > 0 && c.PyOK && hasPy && !strings.HasPrefix(p, "ok ") {
+				pyFails = append(pyFails, fmt.Sprintf("FAIL lang=py class=error format=%s pinned=%s kinds=%s path=%s got=%s", c.Format, tag, okinds, n, c10Short(labOneLine(p))))
+			}
 			for _, x := range byObj[n] {
 				gc, gg := c10Judge(x, g)
 				pc, pg := c10Judge(x, p)
 				common := fmt.Sprintf("format=%s pinned=%s kind=%s flags=%s path=%s.%s expected=%s", c.Format, tag, x.Kind, x.Flags, x.Object, x.Path, x.Want.json())
-				if gc != "" && c.GoOK && hasGo {
+				if gc != "" && gc != "error" && c.GoOK && hasGo {
 					goFails = append(goFails, fmt.Sprintf("FAIL lang=go class=%s %s got=%s peer=%s", gc, common, gg, pg))
 				}
-				if pc != "" && c.PyOK && hasPy {
+				if pc != "" && pc != "error" && c.PyOK && hasPy {
 					pyFails = append(pyFails, fmt.Sprintf("FAIL lang=py class=%s %s got=%s peer=%s", pc, common, pg, gg))
 				}
 				if gc == "" && pc == "" && c.GoOK && c.PyOK {
-					// both hold the declared value; for scalars and lists that is agreement, for struct
-					// defaults compare the declared members only (already done by c10Holds)
 					stats["agree"]++
 				}
 				stats["expectations"]++
